@@ -6,6 +6,7 @@
 //!   harness <component> run <opsfile> <outdir>       writes <outdir>/impl.txt, oracle.txt
 mod checksum;
 mod fsmodel;
+mod link;
 mod path;
 mod crc;
 mod codec;
@@ -40,6 +41,7 @@ fn main() {
                 "segments" => segments::gen(seed, tier, &mut w, &mut stats),
                 "recv" => txgen::gen_recv(seed, tier, &mut w, &mut stats),
                 "send" => txgen::gen_send(seed, tier, &mut w, &mut stats),
+                "link" => link::gen(seed, tier, &mut w, &mut stats),
                 "checksum" => checksum::gen(seed, tier, &mut w, &mut stats),
                 "path" => path::gen(seed, tier, &mut w, &mut stats),
                 "udp" => udp::gen(seed, tier, &mut w, &mut stats),
@@ -61,6 +63,7 @@ fn main() {
                 "segments" => segments::run(&ops, &mut out, &mut orc),
                 "recv" => tx::run(&ops, true, &mut out, &mut orc),
                 "send" => tx::run(&ops, false, &mut out, &mut orc),
+                "link" => link::run(&ops, &mut out, &mut orc),
                 "checksum" => checksum::run(&ops, &mut out, &mut orc),
                 "path" => path::run(&ops, &mut out, &mut orc),
                 "udp" => udp::run(&ops, &mut out, &mut orc),
